@@ -206,10 +206,14 @@ func (c *composer) accRuleSet(rules []SRule, doc *Value, guard []string) bool {
 	case "object":
 		// an object alternative without example: no key is named, additionalProperties decides all
 		for _, r := range rules {
-			if r.Name != "type" && r.Name != "additionalProperties" {
+			if r.Name != "type" && r.Name != "additionalProperties" && r.Name != "nullable" {
 				c.unspecified("object rule set with rule " + r.Name)
 				return false
 			}
+		}
+		if v, ok := pseudo.BoolRule("nullable"); ok && v && doc.Kind == KNull {
+			c.feat["rule-set-object-alternative-nullable"] = true
+			return true // "plus null when nullable:true"
 		}
 		if doc.Kind != KObject {
 			return false
